@@ -261,6 +261,32 @@ def _is_log_stmt(s):
     return isinstance(s, ast.Pass)
 
 
+def _drop_trailing(stmts, kinds):
+    """A bare `return` at the end of a function / a `continue` at the end of a loop body does nothing:
+    drop it, also at the end of the arms of a trailing if."""
+    while stmts:
+        t = stmts[-1]
+        if (isinstance(t, ast.Continue) and 'continue' in kinds) or (
+                'return' in kinds and isinstance(t, ast.Return) and (t.value is None or (isinstance(t.value, ast.Constant) and t.value.value is None))):
+            stmts = stmts[:-1]
+            continue
+        if isinstance(t, ast.If):
+            t.body = _drop_trailing(t.body, kinds) or [ast.Pass()]
+            t.orelse = _drop_trailing(t.orelse, kinds)
+            if all(isinstance(x, ast.Pass) for x in t.body) and t.orelse:
+                t.test = ast.copy_location(ast.UnaryOp(op=ast.Not(), operand=t.test), t.test)
+                t.body, t.orelse = t.orelse, []
+        break
+    return stmts
+
+
+def _loops_trailing(stmts):
+    for s in stmts:
+        for n in ast.walk(s):
+            if isinstance(n, (ast.For, ast.While)):
+                n.body = _drop_trailing(n.body, ('continue',)) or [ast.Pass()]
+
+
 def _clean_block(stmts):
     out = []
     for s in stmts:
@@ -668,6 +694,9 @@ def normal_form(fn, sigs=None):
             counts[p] = counts.get(p, 0) + 1
         f.body = _inline_block(f.body, counts, pnames, f)
         f.body = _clean_block(f.body) or [ast.Pass()]
+        if idi is not None:
+            _loops_trailing(f.body)
+            f.body = _drop_trailing(f.body, ('return',)) or [ast.Pass()]
         ast.fix_missing_locations(f)
         cur = ast.dump(f)
         if idi is None or cur == prev:
